@@ -187,7 +187,10 @@ def group(case):
                         bad("tracker saw a state that is not the state after n steps", mult, tset, t=tt)
                         break
             outs.add(f"steps-N={steps - int(mult)}")
-            keys.append(f"{solver}|{backend}|{dt}|{t0}|{td}|{mult}|{tset}")
+            # non-trivial: the tracker-free reference runs and runs in which a tracker interrupted the
+            # simulation at least once after the start
+            if not tset or any(len(tr.ts) >= 2 for tr in trackers):
+                keys.append(f"{solver}|{backend}|{dt}|{t0}|{td}|{mult}|{tset}")
             if len(viol) > 20:
                 break
         if len(viol) > 20:
@@ -233,7 +236,7 @@ def main(run):
         "all (solver, backend, dt, t_start, autonomous/time-dependent) groups x all time ranges (whole "
         "numbers of steps and fractional) x all tracker sets (none, 23 single schedules, all pairs/triples "
         "from reduced pools); each run compared with the tracker-free run (bit-identical for autonomous) and "
-        "with `steps` applications of the solver's one-step map; distinct = distinct (group, range, tracker set)"
+        "with `steps` applications of the solver's one-step map; distinct = distinct (group, range, tracker set) in which the simulation was actually interrupted by a tracker after the start (plus the tracker-free reference runs)"
     )
 
 
